@@ -1,5 +1,6 @@
 import MjProof.Model.BadCheck
 import MjProof.Gen.Pipeline
+import MjProof.Gen.C30Scans
 import MjProof.Gen.Kernels
 import Drivers.Common
 /-
@@ -12,6 +13,13 @@ Line protocol (same as harness/c/c30_check.c):
          obtained by RUNNING THE GENERATED SKELETON `Gen.Pipeline.mj_check*` under `BadCheck.sem` (with the
          generated `mju_isBad` on Float as the predicate); `model-mismatch` if the hand model `BadCheck.check`
          gives a different slice, `junk` / `outcome` if the run executed an unknown atom or did not end normally
+  ctrlscan <clampoff> <number0> k <K> <kind>*K nu <nu> lim (<limited> <lo bits> <hi bits>)*nu ctrl <bits>*nu
+      -> <number> <lastinfo> <local ctrl bits>*nu
+         the control validation of mj_fwdActuation for K actuators whose control blocks have 1 (`i`), 3 (`s`) or 0 (`z`)
+         entries (so nu ≠ K in general): per-slot clamp with the generated `mju_clip`, then the scan of the GENERATED
+         site (`Gen.C30Scans.sites`, array `local ctrl`) with its bound / zeroed count evaluated at m->nu = nu,
+         m->nactuator = K; `no-site`, `unknown-size <expr>` or `oob` if the table has no such site, bounds the loop by
+         an expression the driver has no value for, or reads past the array
 -/
 open MjProof MjProof.Driver MjProof.BadCheck MjProof.Prog
 
@@ -54,8 +62,58 @@ def runCheck (w : Which) (name : String) (p : Prog) (autoreset sleep : Bool) (nu
       else showDat r.2.d 0 0
   else "bad-op"
 
+def slotsOf (k : String) : Option Nat :=
+  if k == "i" then some 1 else if k == "s" then some 3 else if k == "z" then some 0 else none
+
+/-- (limited, lo, hi) triples -/
+def parseLims : List String → Option (List (Bool × Float × Float))
+  | [] => some []
+  | l :: lo :: hi :: rest =>
+    match bit? l, floatOfBits? lo, floatOfBits? hi, parseLims rest with
+    | some l, some lo, some hi, some r => some ((l, lo, hi) :: r)
+    | _, _, _, _ => none
+  | _ => none
+
+def runCtrlScan (clampoff : Bool) (number0 K nu : Nat) (lims : List (Bool × Float × Float)) (ctrl : List Float) : String :=
+  match Gen.C30Scans.sites.find? (fun s => s.array == "local ctrl") with
+  | none => "no-site"
+  | some site =>
+    let known := ["m->nu", "m->nactuator"]
+    let used := [site.bound] ++ (match site.zeroCount with | some z => [z] | none => [])
+    match used.find? (fun t => !known.contains t) with
+    | some t => "unknown-size " ++ t
+    | none =>
+      let sz : Sizes := fun t => if t == "m->nu" then nu else if t == "m->nactuator" then K else 0
+      -- clampVec(ctrl, ctrlrange, ctrllimited, nu, NULL) unless mjDSBL_CLAMPCTRL
+      let clamped := (ctrl.zip lims).map (fun (x, (l, lo, hi)) => if l && !clampoff then Gen.mju_clip x lo hi else x)
+      let r := site.runCtrl sz isBadF 0.0 clamped
+      if r.oob then "oob"
+      else
+        let (number, info) := match r.fired with | some i => (number0 + 1, i) | none => (number0, 0)
+        s!"{number} {info}" ++ String.join (r.ctrl.map (fun x => " " ++ floatBits x))
+
 def step (line : String) : String :=
   match words line with
+  | "ctrlscan" :: co :: n0 :: "k" :: ks :: rest =>
+    match bit? co, n0.toNat?, ks.toNat? with
+    | some co, some n0, some K =>
+      let kinds := rest.take K
+      match rest.drop K with
+      | "nu" :: nus :: "lim" :: rest2 =>
+        match nus.toNat?, kinds.mapM slotsOf with
+        | some nu, some slots =>
+          let limT := rest2.take (3 * nu)
+          match rest2.drop (3 * nu) with
+          | "ctrl" :: cT =>
+            match parseLims limT, parseBits cT with
+            | some lims, some ctrl =>
+              if kinds.length ≠ K || slots.foldl (· + ·) 0 ≠ nu || lims.length ≠ nu || ctrl.length ≠ nu || K = 0 || K > 8 then "bad-op"
+              else runCtrlScan co n0 K nu lims ctrl
+            | _, _ => "bad-op"
+          | _ => "bad-op"
+        | _, _ => "bad-op"
+      | _ => "bad-op"
+    | _, _, _ => "bad-op"
   | ["isbad", b] =>
     match floatOfBits? b with
     | some x =>
